@@ -65,6 +65,12 @@ def run(repo, rep, tier):
     from . import c15
     L.borrow(repo, rep, "R14.4", "C15", c15._store,
              ("sys-modules-writers", "cooked-read-only"), minimum=2)
+    # two configurations that compile differently never share a key, so
+    # what a template renders does not depend on which was compiled first
+    # (C15 owns the key)
+    from . import c15 as _c15
+    L.borrow(repo, rep, "R14.1", "C15", _c15._coverage,
+             ("lossy-hash", "none-distinct"), minimum=2)
     L.state_rule(repo, rep)
 
 
